@@ -362,6 +362,35 @@ def run(ctx):
                                  % (max(caps), room, nm, len(emo["bengali"][nm])), site_of(b, shrink[0][0]))
                 if all(len(v) <= room for v in emo["bengali"].values()):
                     r6.ok("fixed:cap", "cap %d ≥ 1 + longest list %d" % (max(caps), longest))
+    # ---- R10 every name of the tables can be the word part of a typed text
+    r10 = chk.rule("C18.R10", "every emoji name of the bundled tables survives the splitter: its word part is the name itself",
+                   "typing any English emoji name (phonetic mode) or Bengali emoji name (fixed mode) offers its emoji — the name look-up gets the word part only")
+    try:
+        sp10 = c17.split_fn(prog)
+        meta10 = {c for lit, w in common.splitter_sets(prog, sp10) for c in lit}
+    except Exception as e:      # fail closed
+        meta10 = None
+        r10.undecidable("splitter", "cannot read the splitter's punctuation set: %s" % e)
+    if meta10 is not None and emo:
+        if not meta10 or any(c.isalnum() for c in meta10):
+            r10.undecidable("splitter", "the splitter's punctuation set %r is empty or contains letters (C03.R4 / C17.R4 own that)" % "".join(sorted(meta10)))
+        else:
+            n_ok = 0
+            for mode, tab in (("phonetic", "names"), ("fixed", "bengali")):
+                for nm in sorted(emo[tab]):
+                    if not nm:
+                        continue
+                    if nm[0] in meta10 or nm[-1] in meta10:
+                        r10.violation("name:%s:%s" % (mode, "-".join("%04X" % ord(c_) for c_ in nm)),
+                                      "the %s emoji name `%s` begins or ends with a character the splitter takes for punctuation: the name look-up receives `%s` "
+                                      "and the emoji (%s) is never offered" % ("English" if tab == "names" else "Bengali", nm,
+                                                                                 nm.strip("".join(meta10)), " ".join(emo[tab][nm][:3])), common.fn_line(prog, sp10))
+                    else:
+                        n_ok += 1
+            r10.ok("names", "%d names of the two tables are their own word part (punctuation set of %d characters)" % (n_ok, len(meta10)))
+    elif meta10 is not None:
+        r10.undecidable("tables", "emoji tables of the pinned emojicon crate not found")
+    r10.floor(1, "names")
     r1.floor(4, "2 modes × (emoticon arg, name arg)")
     r8.floor(2, "2 modes")
     r2.floor(3, "2 emoji pushes + phonetic literal")
